@@ -24,6 +24,7 @@ EXPLANATION = (
     "instance whose attributes, text and three children are distinct symbols; every symbol must reach the result under a key/index that "
     "identifies it (attributes by name, children as an ordered sequence with one entry per child). A last-writer-wins store inside the "
     "children loop leaves only the last child's symbols in the result and is reported with the lost child as witness."
+    ' C20.CTOR: every named constructor argument reaches the compared rendering on every successful construction path, for text arguments (parsed messages) and for arguments of any other type (messages built by a program); memoising decorators (functools.lru_cache/cache) are modelled - a cached identity function answers with an earlier ==-equal argument, so the argument itself no longer reaches the rendering.'
 )
 NOT_DECIDED = "nothing: equality is defined by these functions; child kind is pinned by the parent's class (C13.CHILD)"
 ASSUMPTIONS = [
